@@ -265,6 +265,15 @@ def gen_case(rng, pid, tier):
             if r2.random() < 0.25 and not ops[-1][3] and pid in SCHED_PIDS:
                 p2, k2 = r2.randint(1, 2), r2.randint(0, 1)
                 ops[-1] = ops[-1] + [[p2, k2, limits[(p2, k2)], (p2, k2) == noaff_group]]
+            elif not ops[-1][3]:
+                ops[-1] = ops[-1] + [None]
+            if not ops[-1][3]:
+                # ... or changes / drops the data retention; and a second rewrite of the same instance may follow
+                # at once (two events, two batches, no cycle in between)
+                ops[-1] = ops[-1] + [r2.choice([None, None, 'drop', '30s', '1h'])]
+                if r2.random() < 0.3:
+                    ops.append(['appsev', ops[-1][1], r2.choice([0, 1, 50, 100]), False, None,
+                                r2.choice([None, 'drop', '2m'])])
         elif r < 0.895:
             ops.append(['tick', rng.choice([1, 5, 29, 31, 40, 200, 301])])
         elif r < 0.903 and napps[0]:
@@ -1939,6 +1948,18 @@ def _monitor_partition_queues(w):
             continue                        # ambiguous in the generator's own terms: not judged
         want = (hits_[0].get('partition') or '_default') if hits_ else '_default'
         w.stats['c06-queued-instance'] += 1
+        # the priority the instance is queued with is the one its stored manifest declares (0 included; absent or
+        # -1: the assignment's) - every rewrite of a manifest is followed by its event in this engine
+        mrec = w.store.nodes.get('/scheduled/' + an)
+        try:
+            mprio = (json.loads(mrec.data.decode()) or {}).get('priority') if mrec is not None and mrec.data else None
+        except ValueError:
+            mprio = None
+        if isinstance(mprio, int) and not isinstance(mprio, bool) and mprio >= 0 \
+                and w.m.cell.apps[an].priority != mprio:
+            w.run.hits.append(fw.Hit(clause='queued-with-stale-priority', call_site='Master._handle_apps_event',
+                                     detail='%s is queued with priority %r, its stored manifest declares %r' % (
+                                         an, w.m.cell.apps[an].priority, mprio)))
         if where.get(an) != [want]:
             w.run.hits.append(fw.Hit(clause='partition-queue-once', call_site='Loader.load_allocations/load_apps',
                                      detail='%s is queued in %r, the stored allocations assign it to %r' % (
@@ -2283,6 +2304,12 @@ def _apply(case, pid, run, w, op):
                 if lim2:
                     man['affinity_limits'] = lim2
                 w.stats['manifest-regrouped'] += 1
+            if len(op) > 5 and op[5] is not None:
+                if op[5] == 'drop':
+                    man.pop('data_retention_timeout', None)
+                else:
+                    man['data_retention_timeout'] = op[5]
+                w.stats['manifest-retention-rewritten'] += 1
             w.zput('/scheduled/' + name, man)
             _post_event_node(w, 'apps', [name])
             guarded('event:apps', lambda: w.m.process_events(w.store.children('/events')))
